@@ -24,7 +24,7 @@ PID = "C55"
 LEVEL = "translation_validation"
 LEAN = ["SaVerif.Props.C55"]
 META = {
-    "text": "Differential check of the two builds of every dual-implemented module (util/_collections_cy, util/_immutabledict_cy, engine/_processors_cy, engine/_util_cy, sql/_util_cy, engine/_row_cy, engine/_result_cy): one seeded workload (operation sequences on OrderedSet/IdentitySet/immutabledict/unique_list, result processors on valid/invalid/None inputs, _distill_params on every parameter shape, tuplegetter, anon_map/prefix_anon_map lookup histories, Row access patterns incl. pickling, Result fetch sequences with scalars/mappings/columns/unique/yield_per/partitions) is executed in two processes — all modules pure Python vs every non-stale pre-built extension loaded — and return values / exception types / resulting states are compared; both builds are compared with one Lean model each case kind has: the collection models of C54, M-CYUTIL, M-ROW (BaseRow/Row: tuple semantics, key access, ordering, hash, pickling) and — reusing the operation sequences, executor and line format of C10 — M-RESULT / its memoized-getter refinement ResultMemo, whichever C10 itself is checked against (every result kind: cursor strategies, IteratorResult, ChunkedIteratorResult, MergedResult, frozen results, scalars/mappings/unique/columns/yield_per/partitions), plus independent reference oracles. Lean: refine_trans (both builds refining one model are interchangeable), tuplegetter_eq_itemgetter (the contiguous-slice fast path is unobservable for valid indexes), anon_map index stability / density / injectivity, apply_processors_spec, row_key_access, row_pickle_roundtrip, row_ordering_is_tuple_ordering (strict total lexicographic order).",
+    "text": "Differential check of the two builds of every dual-implemented module (util/_collections_cy, util/_immutabledict_cy, engine/_processors_cy, engine/_util_cy, sql/_util_cy, engine/_row_cy, engine/_result_cy): one seeded workload (operation sequences on OrderedSet/IdentitySet/immutabledict/unique_list, result processors on valid/invalid/None inputs, _distill_params on every parameter shape, tuplegetter, anon_map/prefix_anon_map lookup histories, Row access patterns incl. pickling, Result fetch sequences with scalars/mappings/columns/unique/yield_per/partitions) is executed in two processes — all modules pure Python vs every non-stale pre-built extension loaded — and return values / exception types / resulting states are compared; both builds are compared with one Lean model each case kind has: the collection models of C54, M-CYUTIL, M-ROW (BaseRow/Row: tuple semantics, key access, ordering, hash, pickling) and — reusing the operation sequences, executor and line format of C10 — M-RESULT / its memoized-getter refinement ResultMemo, whichever C10 itself is checked against (every result kind: cursor strategies, IteratorResult, ChunkedIteratorResult, MergedResult, frozen results, scalars/mappings/unique/columns/yield_per/partitions), plus independent reference oracles. Lean: refine_trans (both builds refining one model are interchangeable), tuplegetter_eq_itemgetter (the contiguous-slice fast path is unobservable for valid indexes), anon_map index stability / density / injectivity, apply_processors_spec, row_key_access, row_pickle_roundtrip, row_ordering_is_tuple_ordering (strict total lexicographic order), apply_processors_branches_agree / row_apply_processors_branches_agree (M-APPLYPROCS: the pure-Python branch of _apply_processors — copy, overwrite the proc_valid positions — equals the compiled branch — position by position — for every processors tuple, also processors that do not map NULL to NULL, and every raw row incl. NULLs), apply_processors_compiled_spec, apply_processors_skip_null_counterexample (sensitivity). Besides values: freshness/aliasing — unique_list returns a new list independent of its argument under later mutation of either side (sizes 0/1/2 x every argument form), OrderedSet/IdentitySet never share state with, nor later modify, an argument (arguments are mutated after each operation and re-checked after every later one), Rows are independent of the raw row; one raw row with NULLs x processors (incl. NULL-defaulting) x every fetch path (one/first/fetchone/fetchmany/all/iter/partitions/yield_per/unique/columns/tuples/freeze/scalars/scalar/mappings/_raw_all_tuples/direct Row) is compared with the Lean model. A source edit confined to a pure-Python-only branch (else: of `if cython.compiled`) leaves the extension a valid build of the compiled branch (ast compiled-view hash), so the two builds are still compared.",
     "note": "The extensions cannot be rebuilt (no Cython): an extension is examined only while its .py is byte-identical to the source it was built from; a stale extension is reported in evidence and skipped (util/_collections_cy is stale since the F9/F18 fixes). Theorem content is thin (the claim is carried by the differential run): level translation_validation. engine/_result_cy is compared with M-RESULT of C10 (its assumptions and hazard truncation apply unchanged: only the prefix of each sequence whose outputs C10 determines is compared), engine/_row_cy with M-ROW (integer values, distinct keys). Performance and C-level behaviour are not compared.",
     "technique": "two-process differential execution of both builds on one seeded workload + correspondence with Lean models + reference oracles; Lean lemmas for the helper fast paths",
     "design_ref": "DESIGN.md §3 C55",
@@ -42,6 +42,58 @@ BUILT_FROM = {
 }
 
 
+# the same sources with every pure-Python-only region removed (`if cython.compiled: A else: B` -> A,
+# `X if cython.compiled else Y` -> X), ast-normalised and hashed (computed with /venv/bin/python 3.12):
+# what the extension was really compiled from.  An edit confined to a pure-Python branch leaves this
+# view unchanged, so the extension is still a faithful build of the compiled branch and the two
+# builds must still agree — exactly the situation C55 is about.
+BUILT_FROM_COMPILED_VIEW = {
+    "sqlalchemy.util._collections_cy": "48c1b1575bae5551",
+    "sqlalchemy.util._immutabledict_cy": "9e0c97c921e7be7b",
+    "sqlalchemy.engine._processors_cy": "42b8be4a75ddf767",
+    "sqlalchemy.engine._result_cy": "3bff2c1122154a00",
+    "sqlalchemy.engine._row_cy": "38e31b76b14f4d7e",
+    "sqlalchemy.engine._util_cy": "ec698f86d14273aa",
+    "sqlalchemy.sql._util_cy": "57a26a40cc25c711",
+}
+
+
+def compiled_view_hash(src):
+    import ast
+
+    class T(ast.NodeTransformer):
+        @staticmethod
+        def which(test):
+            # True for `cython.compiled`, False for `not cython.compiled`, None otherwise
+            if (isinstance(test, ast.Attribute) and test.attr == "compiled"
+                    and isinstance(test.value, ast.Name) and test.value.id == "cython"):
+                return True
+            if isinstance(test, ast.UnaryOp) and isinstance(test.op, ast.Not):
+                w = T.which(test.operand)
+                return None if w is None else (not w)
+            return None
+
+        def visit_If(self, node):
+            self.generic_visit(node)
+            w = self.which(node.test)
+            if w is None:
+                return node
+            return (node.body if w else node.orelse) or [ast.Pass()]
+
+        def visit_IfExp(self, node):
+            self.generic_visit(node)
+            w = self.which(node.test)
+            if w is None:
+                return node
+            return node.body if w else node.orelse
+
+    try:
+        tree = T().visit(ast.parse(src))
+        return hashlib.sha256(ast.dump(tree, include_attributes=False).encode()).hexdigest()[:16]
+    except SyntaxError:
+        return None
+
+
 # compiled modules that link against another extension's C API (cimport): unusable when that one is stale
 C_DEPENDS = {"sqlalchemy.sql._util_cy": ["sqlalchemy.util._collections_cy"]}
 
@@ -49,6 +101,7 @@ C_DEPENDS = {"sqlalchemy.sql._util_cy": ["sqlalchemy.util._collections_cy"]}
 KIND_DEPENDS = {
     "row": ["sqlalchemy.engine._row_cy", "sqlalchemy.engine._result_cy"],
     "result": ["sqlalchemy.engine._result_cy", "sqlalchemy.engine._row_cy", "sqlalchemy.engine._util_cy"],
+    "applyprocs": ["sqlalchemy.engine._result_cy", "sqlalchemy.engine._row_cy", "sqlalchemy.engine._util_cy"],
     "distill": ["sqlalchemy.engine._util_cy", "sqlalchemy.util._immutabledict_cy"],
     "sqlresult": ["sqlalchemy.engine._result_cy", "sqlalchemy.engine._row_cy", "sqlalchemy.engine._util_cy",
                   "sqlalchemy.engine._processors_cy", "sqlalchemy.util._immutabledict_cy"],
@@ -74,9 +127,12 @@ def extension_status():
         elif not sos:
             out[mod] = (False, "no pre-built extension")
         else:
-            h = hashlib.sha256(open(py, "rb").read()).hexdigest()[:16]
+            raw = open(py, "rb").read()
+            h = hashlib.sha256(raw).hexdigest()[:16]
             if h == want:
                 out[mod] = (True, "source identical to the one the extension was built from")
+            elif compiled_view_hash(raw.decode("utf-8", "replace")) == BUILT_FROM_COMPILED_VIEW.get(mod):
+                out[mod] = (True, "source differs only inside pure-Python-only branches: the extension is still a build of the compiled branch")
             else:
                 out[mod] = (False, "stale: source %s differs from build source %s" % (h, want))
     # test hook (sensitivity experiments only): treat the listed extensions as fresh whatever the source says
@@ -117,6 +173,10 @@ def make_workload(ctx, thorough):
         w.append(c)
     for items in ([], [[1, 2]], [[3, 4], [1, 2], [0, 0]]):
         w.append({"kind": "immdict-immutability", "items": items})
+    # boundary sizes 0/1/2 x every argument form (fast paths live there), then random ones
+    for seq in ([], [3], [3, 3], [3, 4], [4, 3], [3, 4, 3]):
+        for form in ("list", "tuple", "iter", "gen"):
+            w.append({"kind": "unique_list", "seq": seq, "form": form})
     for _ in range(100):
         seq = [rng.randrange(6) for _ in range(rng.randint(0, 8))]
         w.append({"kind": "unique_list", "seq": seq, "form": rng.choice(["list", "tuple", "iter", "gen"])})
@@ -159,6 +219,7 @@ MODULE_OF_KIND = {
     "anon": "sqlalchemy.sql._util_cy",
     "row": "sqlalchemy.engine._row_cy",
     "result": "sqlalchemy.engine._result_cy",
+    "applyprocs": "sqlalchemy.engine._result_cy",
     "sqlresult": "sqlalchemy.engine._result_cy",
     "c10": "sqlalchemy.engine._result_cy",
 }
